@@ -174,6 +174,12 @@ def enumerated(tier, seed):
         for ind in (False, True):
             for k in list(range(-140, -108)) + list(range(108, 141)) + [-3, -1, 1, 3]:
                 yield dict(org=0x0700, items=[dict(t="nop"), dict(t="pcr", mn=mn, ind=ind, to="SELF", k=k, label="SELF"), dict(t="nop")])
+    # 6c. a forward reference whose span holds 1-3 backward references, each of them near its own limit
+    for mf in ("LEAX", "LDY"):
+        for m in (1, 2, 3):
+            for pre in range(112, 128):
+                for g in range(106, 126):
+                    yield fwd_over_backs(mf, m, pre, g)
     # 7. two crossing PCR statements (forward one followed by a backward one), both near the limit
     for ma, mb in (("LEAX", "LEAY"), ("LDA", "LDY"), ("LDY", "LDA")):
         for n1 in range(112, 130):
@@ -215,6 +221,22 @@ def nested_many(mo, m, far, d, forward, inner_ind=False, outer_ind=False, fill_s
         items += [dict(t="nop", label="TGT")] + fill(gap, fill_style) + inner + [outer]
     items += [dict(t="rmb", n=400), dict(t="nop", label="FAR")]
     return dict(org=0x0500, items=items)
+
+
+def fwd_over_backs(mf, m, pre, g):
+    """S0..S(m-1) defined `pre` bytes (in all) before a forward reference F -> T; m backward references to the S_i
+    follow F; then g bytes; then T"""
+    items = []
+    left = pre
+    for i in range(m):
+        n = 4 if i < m - 1 else max(0, left)
+        items.append(dict(t="rmb", n=n, label="S%d" % i))
+        left -= n
+    items.append(dict(t="pcr", mn=mf, ind=False, to="T", k=0))
+    for i in range(m):
+        items.append(dict(t="pcr", mn="LDA", ind=False, to="S%d" % i, k=0))
+    items += [dict(t="rmb", n=g), dict(t="nop", label="T"), dict(t="nop")]
+    return dict(org=0x0800, items=items)
 
 
 def crossing(ma, mb, n1, n2):
